@@ -7,7 +7,7 @@ import os
 
 import networkx as nx
 
-from ..astq import Inliner, U, raised_class_name, statements, store_targets
+from ..astq import Inliner, U, kwarg, raised_class_name, statements, store_targets
 from ..cfg import CFG, header_walk
 from ..index import AnalysisError, walk_no_nested
 from ..normalform import GuardUnsupported, eval_guard
@@ -306,11 +306,47 @@ def r4_progress(ctx):
     ctx.check(ok, "C18.R4", g, loops[0] if loops else g.node, "the visit loop advances by the validated spacing", "the visit loop no longer advances by N(distance_visit_mean, distance_visit_std)", construct="visit loop increment")
 
 
+def r5_beta_domain(ctx):
+    """'finite values within [0,1]' and 'every design that satisfies the requirements runs to completion': the noiseless model values are
+    the means of Beta draws; mean 0 or 1 gives a zero variance bound and NaN shape parameters (scipy raises / returns NaN).  The values
+    are single-precision (model.estimate returns float32 arrays), so the clip bounds must stay strictly inside (0, 1) *as float32*."""
+    import struct
+    from ..normalform import fold_constants
+    ctx.rule("C18.R5", "Beta means clipped strictly inside (0, 1) in single precision before the shape parameters are computed", 2)
+    f = ctx.ix.func(SIM, f"{CLS}._generate_dataset", "C18.R5")
+    inl = Inliner(f.node)
+    clips = [c for c in ast.walk(f.node) if isinstance(c, ast.Call) and isinstance(c.func, ast.Attribute) and c.func.attr in ("clip", "clamp") and "values" in U(c.func.value)]
+    if not clips:
+        ctx.violation("C18.R5", f, f.node, "the noiseless values are no longer clipped inside (0, 1) before being used as Beta means: a saturated value (0 or 1) gives NaN shape parameters", construct="clip of the Beta means")
+        return
+
+    def f32(x):
+        return struct.unpack("f", struct.pack("f", x))[0]
+    for c in clips:
+        lo = kwarg(c, "min") if kwarg(c, "min") is not None else (c.args[0] if len(c.args) > 0 else None)
+        hi = kwarg(c, "max") if kwarg(c, "max") is not None else (c.args[1] if len(c.args) > 1 else None)
+        vlo = fold_constants(inl.resolve(lo)) if lo is not None else None
+        vhi = fold_constants(inl.resolve(hi)) if hi is not None else None
+        if vlo is None or vhi is None:
+            ctx.unknown("C18.R5", f, c, f"clip bounds `{U(lo) if lo is not None else None}`, `{U(hi) if hi is not None else None}` are not closed constants")
+            continue
+        ctx.check(f32(vlo) > 0.0, "C18.R5", f, c, f"lower bound {vlo!r} is > 0 as float32 ({f32(vlo)!r})", f"lower clip bound {vlo!r} is {f32(vlo)!r} in single precision: a value of 0 is not moved inside (0, 1)",
+                  construct="lower clip bound")
+        ctx.check(f32(vhi) < 1.0, "C18.R5", f, c, f"upper bound {vhi!r} is < 1 as float32 ({f32(vhi)!r})",
+                  f"upper clip bound {vhi!r} rounds to {f32(vhi)!r} in single precision (the values are float32): a saturated value 1.0 is not moved inside (0, 1), the variance bound mu(1-mu) is 0 "
+                  "and the Beta shape parameters are NaN - a valid design does not run to completion", construct="upper clip bound")
+    # the clipped values (and nothing else) are the means used for the shape parameters
+    src = U(f.node)
+    ok = "mu * (1 - mu)" in src and "_no_noise" in src
+    ctx.check(ok, "C18.R5", f, f.node, "shape parameters derive from the clipped means", "the Beta shape parameters no longer derive from the clipped noiseless values", construct="means feed the shape parameters")
+
+
 def rules(ctx):
     r1_validate_before_use(ctx)
     r2_none_use(ctx)
     r3_generation_after_validation(ctx)
     r4_progress(ctx)
+    r5_beta_domain(ctx)
     ctx.trust("isinstance / `in` semantics; the shipped default_simulate.json provides the top-level keys")
 
 
